@@ -548,3 +548,116 @@ def _resolve_by_eval(ft, phi, env, assume):
 def fmt_short(t):
     from .terms import fmt
     return fmt(t)
+
+
+# ---------------------------------------------------------------------- loops, iterators, vectors
+
+def iter_source(ft, it):
+    """From the receiver argument of Iterator::next (e.g. &mut phi) to the term that initialised
+    the iterator before the loop (the non-escaped phi operand)."""
+    seen = 0
+    while seen < 16:
+        seen += 1
+        if it[0] == "ref":
+            it = it[2]
+        elif it[0] == "deref":
+            it = it[1]
+        elif it[0] == "phi":
+            ops = [x for x in ft.phi_operands(it).values() if x[0] != "escaped" and x != it]
+            uniq = {strip_site(x): x for x in ops}
+            if len(uniq) != 1:
+                return None
+            it = next(iter(uniq.values()))
+        else:
+            return it
+    return None
+
+
+def ref_key(t):
+    """place key of a reference term ('_40') or None"""
+    while t[0] == "deref" or (t[0] == "ref" and t[2][0] == "deref"):
+        t = t[1] if t[0] == "deref" else t[2]
+    if t[0] == "ref":
+        return t[3]
+    return None
+
+
+class Loop:
+    pass
+
+
+def loops_of(ft):
+    """Describe each natural loop driven by Iterator::next: item term, source term, exits."""
+    out = []
+    for head, body in ft.cfg.loops().items():
+        lp = Loop()
+        lp.head, lp.body = head, body
+        lp.next = [c for c in ft.calls() if c.block in body and c.callee and c.callee.endswith("::next")]
+        lp.item = None
+        lp.source = None
+        lp.item_switch = None
+        lp.some_succ = None
+        if len(lp.next) == 1:
+            c = lp.next[0]
+            lp.item = ("payload", "Some", ("call", c.callee, tuple(c.args), (ft.path, c.block)))
+            lp.source = iter_source(ft, c.args[0])
+            for b in body:
+                t = ft.blocks[b]["term"]
+                if t["k"] == "switch":
+                    d = ft.switch_term(b)
+                    if d[0] == "discr" and d[1][0] == "call" and d[1][1].endswith("::next"):
+                        lp.item_switch = b
+                        for v, bb in t["targets"]:
+                            if int(v) == 1 and bb in body:
+                                lp.some_succ = bb
+        lp.exits = [(b, s) for b in body for s in ft.cfg.succ[b] if s not in body]
+        out.append(lp)
+    return out
+
+
+def every_iteration(ft, lp, block):
+    """does `block` lie on every path from the Some-branch of the loop back to its header?"""
+    if lp.some_succ is None:
+        return False
+    if block == lp.some_succ:
+        return True
+    seen = set()
+    st = [lp.some_succ]
+    while st:
+        b = st.pop()
+        if b in seen or b == block:
+            continue
+        seen.add(b)
+        if b == lp.head:
+            return False
+        for s in ft.cfg.succ[b]:
+            if s in lp.body:
+                st.append(s)
+    return True
+
+
+def pushes_to(ft, key):
+    """call sites that append to the vector local with place key `key`"""
+    out = []
+    for c in ft.calls():
+        if c.callee and c.args and (c.callee.endswith("Vec::push") or c.callee.endswith("::extend") or c.callee.endswith("Vec::insert")
+                                    or c.callee.endswith("Vec::extend_from_slice") or c.callee.endswith("Vec::append")):
+            if ref_key(c.args[0]) == key:
+                out.append(c)
+    return out
+
+
+def mutators_of(ft, key):
+    """all call sites that receive a mutable reference to local `key`"""
+    out = []
+    for c in ft.calls():
+        for a in c.args:
+            t = a
+            hit = False
+            for x in walk(t):
+                if x[0] == "ref" and x[1] in (True, "raw") and x[3] == key:
+                    hit = True
+            if hit:
+                out.append(c)
+                break
+    return out
